@@ -98,6 +98,8 @@ pub struct Case {
     /// `Clone::clone` of an element is a scheduling point of its own
     pub clonepoint: bool,
     pub rawskip: bool,
+    /// `fat <bytes>`: elements are <bytes> large (128 or 65536; slice, vec, array, iter; `copied()` over a slice)
+    pub fat: usize,
     /// `nested`: kind iter: the iterator under test wraps `values()` of an inner concurrent iterator over the probe
     pub nested: bool,
     /// `reenter k`: the k-th call of the wrapped iterator's `next()` queries the concurrent iterator around it
@@ -408,6 +410,7 @@ struct Partial {
     inpanic: Vec<usize>,
     clonepoint: bool,
     rawskip: bool,
+    fat: usize,
     nested: bool,
     reenter: Option<usize>,
     reenter_skip: bool,
@@ -473,6 +476,7 @@ fn finish(p: Partial) -> Result<Case, String> {
         inpanic: p.inpanic,
         clonepoint: p.clonepoint,
         rawskip: p.rawskip,
+        fat: p.fat,
         nested: p.nested,
         reenter: p.reenter,
         reenter_skip: p.reenter_skip,
@@ -562,6 +566,15 @@ pub fn parse_cases(text: &str) -> Result<Vec<Case>, String> {
             }
             "rawskip" => {
                 p.rawskip = true;
+            }
+            "fat" => {
+                let k = toks
+                    .get(1)
+                    .ok_or_else(|| format!("line {ln}: fat <bytes>"))?;
+                p.fat = num::<usize>(k, "fat", ln)?;
+                if p.fat != 128 && p.fat != 65536 {
+                    return Err(format!("line {ln}: fat 128 | fat 65536"));
+                }
             }
             "nested" => {
                 p.nested = true;
